@@ -171,7 +171,7 @@ Definition chunked_iter (st : chunked_rcv) (s : bytes) (orig_size : Z) : iter_re
       let s2 := skipn (pos + 2) s1 in
       let st1 := set_control st [] in
       match line with
-      | [] => Continue st1 s2
+      | [] => Break (set_all (set_error st1 (Some EInvalidChunkSize)) true)   (* `if not line:` *)
       | _ =>
         match control_line_verdict line with
         | LVBadExt => Break (set_all (set_error st1 (Some EInvalidChunkExt)) true)
